@@ -34,6 +34,11 @@ CLAIMED = {
   design_ref="DESIGN.md §3 C20",
   note="Reference is a recursive per-segment star matcher; star-only directory segments and ./.. are excluded as in the property; the exhaustive pattern x name enumeration of the quantifier is not built (that is bounded enumeration, not simulation).",
   technique="deterministic simulation of the directory-tree world: seeded trees and patterns vs segment-wise reference glob model"),
+ "C08": dict(
+  text="Seeded fault injection on the source byte stream: valid corpus programs are delivered to the compiler through a simulated io.Reader (chunking, EOF at k, read error at k, bounded polling after EOF), Compile(string) or CompileFile(real file) after loss/duplication/swap of segments and byte corruption; oracle = returns within a calibrated step budget, exactly one of (program, error), error prints, no panic, no nil holes in the returned program. Thorough adds EOF at every byte of every corpus program. Exploration.",
+  design_ref="DESIGN.md §3 C08",
+  note="The base is always a valid corpus program; purely generative inputs (token soups, random bytes, grammar-generated programs) are not claimed. Digit runs are never lengthened. Step/heap budgets are far above legitimate compiles of corpus-sized sources.",
+  technique="deterministic simulation with fault injection on the source stream: seeded EOF/loss/duplication/reorder/corruption/read-error plans + totality oracle"),
 }
 
 NA = {
